@@ -1268,7 +1268,7 @@ def c05(tier):
 
 # ================================================================================================ C16 / C07(c): the async helper
 
-from interp import Coro, Opaque, RString, NONE, SOME, OK, ERR
+from interp import Coro, Opaque, RString, NONE, SOME, OK, ERR, opt, It
 
 
 def soap_helper_paths(ctx, wrapper=False):
@@ -1570,3 +1570,313 @@ def c07(tier):
                          'envelope (2 header parts) must delegate to each field once. (c) coroutine MIR of both helpers over symbolic stub outcomes. Outside: executing the generated checks on values '
                          '(facet semantics themselves are C06; a simple type derived from a restricted simple type is a known limitation, see DESIGN).',
                   extra_assumptions=['value-level evaluation of generated check_restrictions code (obligation (a) of the design) is not part of the quick tier'])
+
+
+# ================================================================================================ C17: the CLI
+
+import posixpath
+
+
+class VFS:
+    """symbolic-free model of the file system for one path: {absolute path: bytes}, directories implied; records events"""
+
+    def __init__(self, files, dirs, cwd, events):
+        self.files = dict(files)
+        self.dirs = set(dirs)
+        self.cwd = cwd
+        self.events = events
+        self.unreadable = set()
+
+    def abs(self, p):
+        if p == '':
+            return None
+        return posixpath.normpath(posixpath.join(self.cwd, p))
+
+
+def rust_parent(p):
+    """std::path::Path::parent on a unix path string"""
+    if p in ('', '/'):
+        return None
+    q = p.rstrip('/')
+    if '/' not in q:
+        return ''
+    head = q.rsplit('/', 1)[0]
+    return head if head else '/'
+
+
+def rust_file_name(p):
+    q = p.rstrip('/')
+    base = q.rsplit('/', 1)[-1]
+    if base in ('', '.', '..'):
+        return None
+    return base
+
+
+def rust_components(p):
+    out = []
+    if p.startswith('/'):
+        out.append('/')
+    parts = [x for x in p.split('/') if x != '']
+    for i, x in enumerate(parts):
+        if x == '.' and (i > 0 or p.startswith('/')):
+            continue
+        out.append(x)
+    return out
+
+
+class VFile(Sink):
+    def __init__(self, vfs, path):
+        Sink.__init__(self)
+        self.vfs = vfs
+        self.path = path
+
+
+def cli_hook(vfs, argv):
+    def hook(mm, c0, args):
+        c = c0
+        meth = c.split('::')[-1].split('<')[0]
+        a0 = args[0] if args else None
+        if c in ('init', 'env_logger::init'):
+            return ()
+        if c.startswith('clap::Command::') or c.startswith('Arg::') or c.startswith('clap::Arg::'):
+            if meth == 'get_matches':
+                if '-i' not in argv:
+                    raise Panic('clap: required argument missing (process exits with status 2)')
+                return Opaque('ArgMatches', argv)
+            return Opaque('clap-builder')
+        if c.startswith('ArgMatches::get_one'):
+            name = as_str(args[1])
+            flag = {'to_file': '-o', 'from_file': '-i'}.get(name)
+            av = deref(a0).data
+            if flag in av:
+                return SOME(Ref([RString(av[flag])], 0))
+            return NONE()
+        if c.startswith('Path::new'):
+            return as_str(a0)
+        if c.startswith('Path::to_path_buf') or (c.startswith('<PathBuf as Deref>') and meth == 'deref') or c.startswith('PathBuf::from') or c.startswith('Path::as_os_str') or c.startswith('PathBuf::as_path'):
+            return as_str(a0)
+        p = as_str(a0) if args else None
+        if c.startswith('Path::is_file'):
+            return vfs.abs(p) in vfs.files
+        if c.startswith('Path::is_dir'):
+            return vfs.abs(p) in vfs.dirs
+        if c.startswith('Path::exists'):
+            return vfs.abs(p) in vfs.files or vfs.abs(p) in vfs.dirs
+        if c.startswith('Path::file_name'):
+            return opt(rust_file_name(p))
+        if c.startswith('Path::parent'):
+            return opt(rust_parent(p))
+        if c.startswith('Path::extension'):
+            fn = rust_file_name(p)
+            if fn is None or '.' not in fn[1:]:
+                return NONE()
+            return SOME(fn.rsplit('.', 1)[1])
+        if c.startswith('Path::with_extension'):
+            fn = rust_file_name(p)
+            ext = as_str(args[1])
+            if fn is None:
+                return p
+            stem = fn.rsplit('.', 1)[0] if '.' in fn[1:] else fn
+            return p[:len(p.rstrip('/')) - len(fn)] + stem + ('.' + ext if ext else '')
+        if c.startswith('Path::join') or c.startswith('PathBuf::join'):
+            q = as_str(args[1])
+            return q if q.startswith('/') else (p.rstrip('/') + '/' + q if p else q)
+        if c.startswith('OsStr::to_str') or c.startswith('Path::to_str'):
+            return SOME(p)
+        if c.startswith('OsStr::is_empty'):
+            return p == ''
+        if '<Path as PartialEq' in c or '<PathBuf as PartialEq' in c:
+            return rust_components(p) == rust_components(as_str(args[1]))
+        if '<&OsStr as PartialEq' in c or '<OsStr as PartialEq' in c:
+            return p == as_str(args[1])
+        if c.startswith('Path::read_dir') or c.startswith('std::fs::read_dir'):
+            d = vfs.abs(p)
+            vfs.events.append(('read_dir', p))
+            if d is None or d not in vfs.dirs:
+                return ERR(Opaque('io::Error', {'kind': 'NotFound'}))
+            names = sorted(f[len(d.rstrip('/')) + 1:] for f in list(vfs.files) + list(vfs.dirs) if f.startswith(d.rstrip('/') + '/') and '/' not in f[len(d.rstrip('/')) + 1:])
+            return OK(It(OK(Opaque('DirEntry', (p.rstrip('/') + '/' + n) if p not in ('',) else n)) for n in names))
+        if c.startswith('DirEntry::path'):
+            return deref(a0).data
+        if c.startswith('std::fs::read_to_string'):
+            f = vfs.abs(p)
+            vfs.events.append(('read', f))
+            if f not in vfs.files or f in vfs.unreadable:
+                return ERR(Opaque('io::Error', {'kind': 'NotFound' if f not in vfs.files else 'PermissionDenied'}))
+            return OK(RString(vfs.files[f]))
+        if c.startswith('File::create') or c.startswith('std::fs::File::create'):
+            f = vfs.abs(p)
+            vfs.events.append(('create', f))
+            if f is None or posixpath.dirname(f) not in vfs.dirs:
+                return ERR(Opaque('io::Error', {'kind': 'NotFound'}))
+            vfs.files[f] = ''
+            return OK(VFile(vfs, f))
+        if c.startswith('std::fs::write'):
+            f = vfs.abs(p)
+            vfs.events.append(('create', f))
+            if f is None or posixpath.dirname(f) not in vfs.dirs:
+                return ERR(Opaque('io::Error', {'kind': 'NotFound'}))
+            data = deref(args[1])
+            if isinstance(data, Sink):
+                data = ''.join(data.rope)
+            elif isinstance(data, RString):
+                data = data.s
+            elif isinstance(data, list):
+                data = ''.join(x if isinstance(x, str) else chr(x) for x in data)
+            vfs.files[f] = data
+            return OK(())
+        if meth == 'write_fmt' and isinstance(deref(a0), VFile):
+            vf = deref(a0)
+            text = mm.rope_join(mm.render_pieces(args[1]))
+            vfs.files[vf.path] = vfs.files.get(vf.path, '') + mm.cstr(text)
+            vf.n += 1
+            return OK(())
+        if meth in ('write_all', 'write') and isinstance(deref(a0), VFile):
+            vf = deref(a0)
+            buf = deref(args[1])
+            if isinstance(buf, Sink):
+                text = ''.join(buf.rope)
+            elif isinstance(buf, list):
+                text = ''.join(x if isinstance(x, str) else chr(x) for x in buf)
+            else:
+                text = mm.cstr(buf)
+            vfs.files[vf.path] = vfs.files.get(vf.path, '') + text
+            return OK(len(text.encode())) if meth == 'write' else OK(())
+        if meth in ('flush', 'sync_all') and isinstance(deref(a0), VFile):
+            return OK(())
+        return NotImplemented
+    return hook
+
+
+GOOD_A = '<xs:schema xmlns:xs="http://www.w3.org/2001/XMLSchema" xmlns:t="urn:a" xmlns:b="urn:b" targetNamespace="urn:a"><xs:import namespace="urn:b" schemaLocation="b.xsd"/><xs:complexType name="A"><xs:sequence><xs:element name="x" type="b:B"/></xs:sequence></xs:complexType></xs:schema>'
+GOOD_B = '<xs:schema xmlns:xs="http://www.w3.org/2001/XMLSchema" xmlns:b="urn:b" targetNamespace="urn:b"><xs:complexType name="B"><xs:sequence><xs:element name="y" type="xs:int"/></xs:sequence></xs:complexType></xs:schema>'
+INPUTS = {
+    'good': GOOD_A,
+    'malformed': '<xs:schema xmlns:xs="http://www.w3.org/2001/XMLSchema"><xs:complexType name="A">',
+    'unresolved-import': GOOD_A.replace('b.xsd', 'nowhere.xsd'),
+}
+
+
+def c17(tier):
+    def body(s):
+        ctx = s.ctx
+        s.functions.update(['zeep::main', 'zeep_lib::utils::read_input_file_and_xsd_files_at_path'] + [n for n in ctx.bin_bodies])
+        spelling = Selector('path_spelling', [('absolute', '/w/in', '/w/in/a.xsd'), ('relative-with-dir', '/w', 'in/a.xsd'), ('dot-slash', '/w/in', './a.xsd'),
+                                              ('bare-name', '/w/in', 'a.xsd'), ('missing-file', '/w/in', 'nope.xsd')])
+        outarg = Selector('output_arg', [None, '/w/out/gen.rs', 'gen2.rs'])
+        pre = Selector('preexisting_output', ['absent', 'shorter', 'longer'])
+        content = Selector('input_content', list(INPUTS))
+        sibling = Selector('sibling', ['readable', 'unreadable'])
+        OLD = {'absent': None, 'shorter': '// old\n', 'longer': '// old output\n' + '// padding line\n' * 4000}
+        s.scenarios += 1
+
+        def entry(m):
+            for sel in (spelling, outarg, pre, content, sibling):
+                m.pc.append(sel.domain)
+            sp = m.concretize(spelling.sym())
+            oa = m.concretize(outarg.sym())
+            pr = m.concretize(pre.sym())
+            ct = m.concretize(content.sym())
+            sb = m.concretize(sibling.sym())
+            events = []
+            files = {'/w/in/a.xsd': INPUTS[ct], '/w/in/b.xsd': GOOD_B, '/w/in/readme.txt': 'not a schema'}
+            vfs = VFS(files, {'/w', '/w/in', '/w/out', '/'}, sp[1], events)
+            if sb == 'unreadable':
+                vfs.unreadable.add('/w/in/b.xsd')
+            argv = {'-i': sp[2]}
+            if oa is not None:
+                argv['-o'] = oa
+            expected_out = vfs.abs(oa) if oa is not None else vfs.abs(sp[2][:-4] + '.rs' if sp[2].endswith('.xsd') else sp[2] + '.rs')
+            if OLD[pr] is not None:
+                vfs.files[expected_out] = OLD[pr]
+            m.hooks.append(cli_hook(vfs, argv))
+            main = [b for n, b in m.b.items() if n == 'main' and b.kind == 'fn'][0]
+            outcome = 'exit0'
+            try:
+                m.run(main, [])
+            except Panic as e:
+                outcome = 'panic: ' + str(e)[:80]
+            return dict(spelling=sp[0], output_arg=oa, pre=pr, content=ct, sibling=sb, outcome=outcome, events=events, vfs=vfs,
+                        expected_out=expected_out, old=OLD[pr])
+        res = explore(lambda: H.machine(ctx, binary=True), entry)
+        s.count(res)
+        if len(res) > 1:
+            s.nontrivial += 1
+        # the library's own output for the good file set: what every successful CLI run must write
+        mlib = H.machine(ctx)
+        rlib = H.generate(mlib, {'a.xsd': GOOD_A, 'b.xsd': GOOD_B}, 'a.xsd')
+        lib_text = H.rope_text(mlib, rlib[1]) if rlib[0] == 'ok' else None
+        found = {}
+        for m, out in res:
+            if out[0] != 'ok':
+                found.setdefault('c17/internal/' + out[0], (str(out[1]), None))
+                continue
+            r = out[1]
+            should_succeed = r['content'] == 'good' and r['sibling'] == 'readable' and r['spelling'] != 'missing-file'
+            final = r['vfs'].files.get(r['expected_out'])
+            if should_succeed:
+                if r['outcome'] != 'exit0':
+                    found.setdefault('c17/valid-input-fails/' + r['spelling'], ('a valid input given as %s path fails: %s' % (r['spelling'], r['outcome']), r))
+                elif final != lib_text:
+                    kind = 'stale-bytes' if final is not None and lib_text is not None and final.startswith(lib_text) else 'wrong-bytes' if final is not None else 'wrong-output-path'
+                    found.setdefault('c17/%s/%s' % (kind, r['spelling']), ('output file %s does not hold exactly the library output (%s)' % (r['expected_out'], kind), r))
+            else:
+                if r['outcome'] == 'exit0':
+                    found.setdefault('c17/failure-exits-zero/' + r['content'], ('generation cannot succeed (%s, sibling %s) but the process exits 0' % (r['content'], r['sibling']), r))
+                if r['old'] is not None and final != r['old']:
+                    stage = 'input-missing' if r['spelling'] == 'missing-file' else 'sibling-unreadable' if r['sibling'] == 'unreadable' and r['content'] == 'good' else r['content']
+                    found.setdefault('c17/failure-clobbers-output/' + stage, ('generation fails (%s) but the pre-existing output %s is %s' % (
+                        stage, r['expected_out'], 'truncated / rewritten' if final is not None else 'removed'), r))
+        s.samples.append(dict(paths=len(res), symbolic={x.name: [o if not isinstance(o, tuple) else o[0] for o in x.options] for x in (spelling, outarg, pre, content, sibling)},
+                              violations=sorted(found)))
+        # native replay with the real binary in a scratch directory
+        for key, (what, r) in sorted(found.items()):
+            if r is None:
+                s.rep.inconc('%s: %s' % (key, what))
+                continue
+            d = tempfile.mkdtemp(prefix='zeep-verif-c17.')
+            try:
+                os.makedirs(d + '/w/in')
+                os.makedirs(d + '/w/out')
+                open(d + '/w/in/a.xsd', 'w').write(INPUTS[r['content']])
+                open(d + '/w/in/b.xsd', 'w').write(GOOD_B)
+                open(d + '/w/in/readme.txt', 'w').write('not a schema')
+                if r['sibling'] == 'unreadable':
+                    os.remove(d + '/w/in/b.xsd')
+                    os.makedirs(d + '/w/in/b.xsd')      # a directory named b.xsd: read_to_string fails (root ignores permissions)
+                sp = [o for o in spelling.options if o[0] == r['spelling']][0]
+                cwd = d + sp[1]
+                arg = sp[2] if not sp[2].startswith('/') else d + sp[2]
+                outp = d + r['expected_out']
+                if r['old'] is not None:
+                    open(outp, 'w').write(r['old'])
+                cmd = [ctx.zeep, '-i', arg]
+                if r['output_arg'] is not None:
+                    cmd += ['-o', r['output_arg'] if not r['output_arg'].startswith('/') else d + r['output_arg']]
+                rc, log_, _ = run(cmd, cwd=cwd, timeout=60)
+                final = open(outp).read() if os.path.exists(outp) else None
+            finally:
+                rmtree(d)
+            s.replays += 1
+            rdir = save_replay('C17', re.sub(r'\W+', '_', key), {'finding.txt': '%s\n%s\nscenario: %s\nnative: rc=%s %s\n' % (key, what, {k: v for k, v in r.items() if k not in ('vfs', 'events', 'old')}, rc, log_[-400:]),
+                                                              'a.xsd': INPUTS[r['content']], 'b.xsd': GOOD_B})
+            kind = key.split('/')[1]
+            if kind == 'valid-input-fails':
+                ok = rc != 0
+            elif kind == 'failure-exits-zero':
+                ok = rc == 0
+            elif kind == 'failure-clobbers-output':
+                ok = final != r['old']
+            else:
+                ok = rc == 0 and final != lib_text
+            if ok:
+                s.rep.violation(key, what + ' [spelling=%s output=%s pre-existing=%s input=%s sibling=%s]' % (r['spelling'], r['output_arg'], r['pre'], r['content'], r['sibling']), rdir)
+            else:
+                s.rep.inconc('ENCODING-MISMATCH %s: native rc=%s, output %s' % (key, rc, 'unchanged' if final == r['old'] else 'changed'))
+    return run_e2('C17', tier, body, level='other',
+                  bounds='path spelling in {absolute, relative with directory, ./name, bare name, missing file} x --output in {absent, absolute, relative} x pre-existing output in {absent, shorter, longer} '
+                         'x input in {good, malformed XML, unresolved import} x sibling readable/unreadable: 270 combinations, all explored (selectors concretised by the solver).',
+                  explanation='Claimed for the ordering / derivation logic of main and read_input_file_and_xsd_files_at_path only. Their MIR is executed over a model of clap (argument lookup) and of '
+                              'std::path / std::fs (Path algebra per std\'s documented component semantics, a file-system map with create = truncate). Every run is compared with the library output '
+                              'computed from the same MIR; every finding is replayed with the natively built zeep binary in a scratch directory. Real OS behaviour (permissions, symlinks, '
+                              'non-UTF-8 names) is outside.')
